@@ -40,24 +40,43 @@ def r8_1(ctx, rc):
 
 def _check_functions(ctx):
     """Cache methods that raise when a key is present: qualname -> groups."""
+    if 'check_functions' in ctx.memo:
+        return ctx.memo['check_functions']
     prog = ctx.prog
     C = ctx.R.cache
     direct = {}
     for m in prog.classes[C].methods.values():
         groups = set()
-        for n in ast.walk(m.node):
-            if not isinstance(n, ast.If):
-                continue
-            raises = any(isinstance(x, ast.Raise) for st in n.body
-                         for x in ast.walk(st))
-            if not raises:
-                continue
-            for c in ast.walk(n.test):
-                if isinstance(c, ast.Compare) and len(c.ops) == 1 and \
-                        isinstance(c.ops[0], ast.In) and \
-                        isinstance(c.comparators[0], ast.Attribute) and \
-                        c.comparators[0].attr in CLAIM_MAPS:
-                    groups.add(CLAIM_MAPS[c.comparators[0].attr])
+        mentions = any(
+            isinstance(c, ast.Compare) and len(c.ops) == 1 and isinstance(
+                c.ops[0], (ast.In, ast.NotIn)) and isinstance(
+                    c.comparators[0], ast.Attribute) and
+            c.comparators[0].attr in CLAIM_MAPS for c in ast.walk(m.node))
+        if not mentions or not any(isinstance(x, ast.Raise)
+                                   for x in ast.walk(m.node)):
+            continue
+        # on the function's own flow graph: once the key was found in the
+        # map, every path ends in a raise (whatever the shape: ``if k in m:
+        # raise`` or ``if k not in m: return`` followed by the raise)
+        sg = ctx.E.super(m, lambda g: False)
+        for x in sg.nodes:
+            for d, lab in x.succ:
+                if not (isinstance(lab, tuple) and len(lab) == 4 and
+                        lab[0] in ('T', 'F')):
+                    continue
+                a = lab[1]
+                if not (isinstance(a, ast.Compare) and len(a.ops) == 1 and
+                        isinstance(a.ops[0], (ast.In, ast.NotIn)) and
+                        isinstance(a.comparators[0], ast.Attribute) and
+                        a.comparators[0].attr in CLAIM_MAPS):
+                    continue
+                present = (lab[0] == 'T') == isinstance(a.ops[0], ast.In)
+                if not present:
+                    continue
+                seen = sg.reach([d])
+                if not (set(sg.normal_exits()) & set(seen)) and any(
+                        sg.nodes[k].kind == 'raise_exit' for k in seen):
+                    groups.add(CLAIM_MAPS[a.comparators[0].attr])
         if groups:
             direct[m.qualname] = groups
     allc = dict(direct)
@@ -73,6 +92,7 @@ def _check_functions(ctx):
                         if not allc[g.qualname] <= s:
                             s |= allc[g.qualname]
                             changed = True
+    ctx.memo['check_functions'] = allc
     return allc
 
 
@@ -228,6 +248,39 @@ def _builder_graph(ctx, fname):
 
 def _is_user(sn):
     return sn.kind == 'leaf' and sn.callee == 'USER'
+
+
+def failed_record_is_marked(ctx, rc):
+    """After the atomic claim, every path on which the call fails (leaves by
+    an exception) has stored ``raised = True`` into the record: it is what
+    the reuse deciders refuse later; a failed call recorded as a success is
+    served from the cache (returning None) instead of failing again."""
+    from .c10 import _store_true
+    C = ctx.R.cache
+    for fname, claim in (('_build_file', 'start_building_file'),
+                         ('_subbuild', 'start_subbuild')):
+        F, sg = _builder_graph(ctx, fname)
+        starts = [n.id for n in sg.nodes if Q.is_done(n, C + '.' + claim)]
+        key = '%s: a failure after the claim marks the record raised' % \
+            F.qualname
+        if not starts:
+            rc.violation('claim-missing | %s | %s' % (F.qualname, claim),
+                         '%s never performs the atomic claim %s' % (
+                             F.qualname, claim), F.file, key=key)
+            continue
+        w = Q.first_unguarded(
+            sg, starts, _store_true('raised'),
+            lambda x: x.kind == 'raise_exit' and x.frame.parent is None)
+        if w:
+            rc.violation(
+                'failure-unmarked | ' + F.qualname,
+                'when the function run by %s fails, a path leaves with the '
+                'exception without having stored raised = True into the '
+                'record: the next build serves the failed call from the '
+                'cache as if it had returned None' % F.qualname,
+                sg.nodes[w[0]].where(), sg.describe_path(w), key=key)
+        else:
+            rc.ok({'procedure': F.qualname, 'marks': 'raised'}, key=key)
 
 
 def r8_3(ctx, rc):
@@ -483,6 +536,18 @@ def r8_7(ctx, rc):
     r1_5(ctx, rc)
 
 
+def r8_8(ctx, rc):
+    """The duplicate key is recomputed from the record wherever it is
+    needed again, so the record's arguments must stay what was claimed: one
+    canonical key function (R7.3), the callee works on copies (R7.5), no
+    record-owned value escapes (R11.1)."""
+    from .c07 import r7_3, r7_5
+    from .c11 import r11_1
+    r7_3(ctx, rc)
+    r7_5(ctx, rc)
+    r11_1(ctx, rc)
+
+
 RULES = [
     ('R8.1', 'lockset on the claim maps', r8_1),
     ('R8.2', 'check-and-claim is one critical section', r8_2),
@@ -493,4 +558,6 @@ RULES = [
     ('R8.5', 'setup failures are never registered or reused', r8_5),
     ('R8.6', 'claim precedes destruction of the own path', r8_6),
     ('R8.7', 'a reused record registers everything nested in it', r8_7),
+    ('R8.8', 'the key is canonical and its inputs stay as claimed (R7.3, '
+     'R7.5, R11.1)', r8_8),
 ]
